@@ -10,7 +10,6 @@ NA = {
  "C11": "string-keyed set/graph fix-points over whole grammars; 2-production symbolic probe did not leave symbolic execution in 30 min; corpus comparison against reference fix-points would be differential testing",
  "C14": "the real TokenBuffer is out of CBMC's reach: one concrete add + take_skip_tokens takes 460 s, a single add with a symbolic span did not finish in 700 s, LR reductions over real tokens did not finish in 25 min; whole parse runs (tree leaves) did not finish either; byte/line/column arithmetic lives in the external scnr2 crate. The gap-token and skip-classification pieces that could be decided are claimed under C16 (catch-all coverage) and C17 (classification kernel)",
  "C13": "implemented by the external scnr2 matcher on proc-macro generated DFAs; real scanner + stream did not finish a concrete 2-byte input in 15 min under CBMC; parol-side pieces are decided under C15/C16",
- "C18": "string-keyed lookups and template rendering across five generators; nothing a solver can be asked; behaviour-changing numbering errors surface per corpus grammar under C01/C07",
  "C21": "source/JSON rendering for all grammars; behaviour-changing table errors surface under C01/C03/C07/C08 only",
  "C22": "the oracle is rustc; nothing for a solver to decide",
  "C23": "generated per-grammar heap/trait-object code through the full runtime; out of reach of CBMC, and no artifact to encode",
@@ -105,6 +104,11 @@ add("C19", "model_checking",
 add("C20", "model_checking",
     "Bounded model checking (Kani/CBMC) of the option-dependent LL steps with all option values symbolic: trimming only removes tree-builder calls (same stack effect, same semantic-action call), the depth counter skips push productions and MaxParsingDepthExceeded is returned exactly when the counter exceeds the limit (never without one), recovery mode suppresses action calls only. Partial: equality of whole-run outcomes and the LR depth limit are not claimed.",
     STEP_NOTE, "SAT-based bounded model checking of compiled Rust (Kani), one-step harnesses with symbolic option values", "DESIGN.md §0.5")
+
+add("C18", TV,
+    "Partial: z3 decides per LL corpus grammar, for ALL token strings up to N, that the grammar as written (terminals = expanded patterns) and the generated PRODUCTIONS / LOOKAHEAD_AUTOMATA, with terminal indices read through the regular expressions the GENERATED SCANNER assigns to them, describe the same language; plus index-range conjuncts (every index used is produced by a scanner mode, every scanner terminal belongs to the grammar, name table size). A production table that numbers a raw literal like the regex literal with equal text is a language difference. Skip lists and scanner-transition lists are not covered.",
+    G_NOTE + "; literals with different quoting but the same expanded pattern are identified (the scanner cannot tell them apart)",
+    "bounded CFG language equivalence in SMT (z3) across the generated scanner's and the generated tables' terminal numbering", "DESIGN.md §0.2")
 
 PENDING = {}
 
